@@ -97,7 +97,7 @@ def plan(ctx):
                        [('envname', 'A_ENV', 3, i, 8) for i in range(8)] +
                        ([('tokcore', 'A_TOK_CORE', 4, i, 64) for i in range(64)] if ctx.thorough else [])),
         ('shard_random', [('rnd', ctx.pick(900, 40000), i) for i in range(16)]),
-        ('shard_mutations', [('mut', ctx.pick(4, 40), i) for i in range(16)]),
+        ('shard_mutations', [('mut', ctx.pick(4, 8), i) for i in range(16)]),
         ('shard_chains', [('chain', ctx.pick(14, 600), i) for i in range(16)]),
         ('shard_runs', [('runs', i, 16, ctx.pick((1025,), RUN_LENGTHS)) for i in range(16)]),
     ]
@@ -174,7 +174,7 @@ def shard_mutations(ctx, shard):
         if len(src) > cap:
             src = src[:cap]
         muts = T.mutations(src, T.A_CORE + ['\x7f', '\r', '#', '&', ')', '.', '~'],
-                           limit=None if len(src) <= 30 else (400 if not ctx.thorough else 2500))
+                           limit=None if len(src) <= 30 else (400 if not ctx.thorough else 1000))
         for kind, pos, s in muts:
             try:
                 outs = check_string(s, 'mutation:' + kind)
